@@ -98,6 +98,14 @@ def gen_case(rng, db, pool):
             B = f"({A} -> {sb.text})"
             return {"a": f"assert_eq({A}, {B})", "expect": None, "probe": f"(({A}) -> {sb.text}) == ({B})",
                     "kind": "eq2_boundary", "fail_kind": "AssertEq2Failed", "nt": nt}
+        if rng.random() < 0.5:
+            # infinities (always written with a unit): equal infinities are equal, everything else differs; judged
+            # against numbat's own `==` on the converted operand, like every other boundary case
+            sx, sy = rng.choice([("inf", "inf"), ("-inf", "-inf"), ("inf", "-inf"), ("-inf", "inf"), ("inf", None), (None, "-inf")])
+            A2 = f"({sx}) {sa.text}" if sx else A
+            B2 = f"({sy}) {sb.text}" if sy else f"{plit(x)} {sb.text}"
+            return {"a": f"assert_eq({A2}, {B2})", "expect": None, "probe": f"(({A2}) -> {sb.text}) == ({B2})",
+                    "kind": "eq2_infinite", "fail_kind": "AssertEq2Failed", "nt": nt}
         B = f"NaN {sb.text}"
         return {"a": f"assert_eq({A}, {B})", "expect": False, "kind": "eq2_nan", "fail_kind": "AssertEq2Failed", "nt": nt}
     # three-argument form
@@ -124,6 +132,11 @@ def gen_case(rng, db, pool):
     B = f"{plit(y)} {sb.text}"
     vb = nmul(exact(y), ub.factor)
     D = abs(nadd(va, -vb))
+    if c < 0.30:
+        # |inf - inf| is NaN: the documented predicate |a-b| <= eps is false
+        sgn = rng.choice(["inf", "-inf"])
+        return {"a": f"assert_eq(({sgn}) {sa.text}, ({sgn}) {sb.text}, 1 {se.text})", "expect": False, "kind": "eq3_infinite",
+                "fail_kind": "AssertEq3Failed", "nt": nt}
     if c < 0.35:
         E = f"NaN {se.text}" if rng.random() < 0.5 else None
         if E is None:
